@@ -13,9 +13,15 @@ it delivers with an independent reader of the documented syntax (harness/_C09_re
       next token / end of line: fragments and references of the delivered StringSdv, its resolved value,
       and the token that follows.
   K4  here-document through the real RichStringParser: body, end marker, what follows, missing marker,
-      superfluous arguments.
+      superfluous arguments; after the end marker the SAME stream must deliver exactly the tokens of the
+      text that follows (raw-line consumption and token look-ahead share one lexer).
   K5  lists through the real parse_list (elements, `)`, continuation backslash, list-valued symbols) and
-      text-until-end-of-line (`:>`).
+      text-until-end-of-line (`:>`), again followed by the tokens of the next lines through the same stream.
+  K6  a quoted token is a plain string, never syntax [selector]: catalogue of syntax words (options, `)`,
+      `&&`, `||`, `!`, reserved words, `:>`, `<<EOF`, backslash) x quoting (naked / soft / hard) against every
+      token matcher and TokenParser keyword / option method, and at the positions where the real parsers
+      accept an option or marker (STRING-SOURCE, program arguments, program executable, string transformer
+      options, RICH-STRING).  harness/_C09_k6.py.
 
 Texts of K2-K5 are families given by a MASK: pinned characters are concrete, each hole is one symbolic
 character over the hole's alphabet (alphabets contain quotes, separators and line ends, so token and line
@@ -1368,6 +1374,11 @@ def selftest(tier: str) -> int:
                 if got != want:
                     raise AssertionError('reference tokenizer differs from TokenStream on %r: %r vs %r' % (src, want, got))
                 n += 1
+                span = ref.first_token_span(src, 0)
+                want_span = ((toks[0].start, toks[0].end) if toks else
+                             None if err is None else (err, -1))
+                if span != want_span:
+                    raise AssertionError('first_token_span differs from tokenize on %r: %r vs %r' % (src, span, want_span))
     # reference splitter vs symbol_syntax.split, and the properties the fragmentation must have
     ref_re = re.compile(r'@\[[A-Za-z0-9_\xe9]+\]@')
     for alphabet, maxlen in (('@[]a_-', 6 if tier == 'quick' else 7), (K2_ALPHABET_U, 5)):
